@@ -7,7 +7,7 @@ original fds 0/1 are duplicated at start; main() is run with fds 0/1 swapped to 
 because it does os.fdopen(sys.stdin.fileno()) / os.fdopen(sys.stdout.fileno()) and closes both).
 
 Descriptor set:  {"files": [{"name", "package", "deps": [..], "messages": [{"name", "nested": [..]}],
-                             "services": [{"name", "methods": [{"name","cs","ss","in","out"}]}]}],
+                             "services": [{"name", "methods": [{"name","cs","ss","in","out"[,"cs_set","ss_set"]}]}]}],
                   "gen": [file names]}
 
 Nothing here knows the model.  The only naming rule used is protoc's own rule for python modules
@@ -71,10 +71,16 @@ def fill_file(fd, f):
             x.name = me['name']
             x.input_type = me['in']
             x.output_type = me['out']
+            # the two flags are optional proto2 fields with three states each: absent, explicitly false
+            # ('cs_set'/'ss_set': what a programmatic descriptor or another compiler may send), true
             if me['cs']:
                 x.client_streaming = True
+            elif me.get('cs_set'):
+                x.client_streaming = False
             if me['ss']:
                 x.server_streaming = True
+            elif me.get('ss_set'):
+                x.server_streaming = False
 
 
 # ---- running the real main() -------------------------------------------------------------------
